@@ -328,6 +328,8 @@ def check(run):
     run.cov["table"]["conflict_edges_without_common_lock"] = len(edges)
     known_lines = [k for k in C.load_known() if k.get("property") == PID and k.get("status") == "open"]
     known_entries = {k["match"].get(x) for k in known_lines for x in ("entry", "against")}
+    known_fields = {k["match"].get("field") for k in known_lines}
+    new_location = collections.OrderedDict()
     merged_groups = sorted(e for e in known_entries if e and e.startswith("informer:") and (e.endswith("&co") or e == "informer:enqueue-only"))
 
     # S: race detector on the real concurrent entry points
@@ -418,9 +420,24 @@ def check(run):
         elif C.match_known(PID, sig) is not None:
             # known edge not re-exhibited in this run: still the recorded finding
             run.failing(sig, [case], what, theorem="Lockset.Model.protected_except_all on gen/Accesses.v")
+        elif field not in known_fields:
+            # a location no recorded finding is about: the edges the detector did not exhibit are reported together
+            new_location.setdefault(field, []).append((sig, case, what))
         else:
             run.failing(sig, [case], what + "; not exhibited by the race detector in this run",
                         theorem="Lockset.Model.protected_except_all known gen_accesses = true", found_input=False)
+    for field, items in new_location.items():
+        if len(items) <= 2:
+            for sig, case, what in items:
+                run.failing(sig, [case], what + "; not exhibited by the race detector in this run",
+                            theorem="Lockset.Model.protected_except_all known gen_accesses = true", found_input=False)
+            continue
+        pairs = sorted({"%s / %s" % (sg["entry"], sg["against"]) for sg, _, _ in items})
+        run.failing({"kind": "unprotected-access", "entry": "*", "against": "*", "field": field, "edges": len(items)},
+                    [c_ for _, c_, _ in items[:3]],
+                    "%s: %d more conflict edges on this new location were not exhibited by the race detector in this run (%s); first of them: %s"
+                    % (field, len(items), "; ".join(pairs)[:600], items[0][2]),
+                    theorem="Lockset.Model.protected_except_all known gen_accesses = true", found_input=False)
     # the computed instance obligation (restricted to the edges that are not known findings)
     run.cov["obligations"] += 1
     if ev["protected_except_known"]:
